@@ -13,6 +13,8 @@ orthonormality is available as trigonometric identities in the normal form).
 from xfabsa import core, numeric as N, rotref as RR
 from xfabsa.core import AnalysisError
 from xfabsa.poly import Rat
+import ast
+
 from xfabsa.symeval import Evaluator, sym_array, Arr, Opaque, scalar, materialise, deep_subs
 
 
@@ -43,43 +45,67 @@ def run(ctx):
     dmod = core.module("xfab/detector.py")
     tmod = core.module("xfab/tools.py")
     ctx.saw(dmod); ctx.saw(tmod, "detect_tilt")
-    A = {k: Rat.atom(k) for k in ("costth", "wavelength", "distance", "y_size", "z_size", "dety_center", "detz_center",
-                                  "tx", "ty", "tz", "tth", "eta", "tilt_x", "tilt_y", "tilt_z")}
-    Gt = sym_array("Gt", (3,))
-    R = Evaluator(tmod, inline=True).call_function("detect_tilt", [A["tilt_x"], A["tilt_y"], A["tilt_z"]])
-    Rm = [[scalar(x) for x in row] for row in (R if isinstance(R, Arr) else materialise(R)).data]
-    if not RR.is_proper_rotation(Rm):
-        raise AnalysisError("tools.detect_tilt does not evaluate to a proper rotation (see C03)")
-    common = [A["distance"], A["y_size"], A["z_size"], A["dety_center"], A["detz_center"], R, A["tx"], A["ty"], A["tz"]]
     f1 = dmod.func("det_coor"); f2 = dmod.func("det_coor2"); f3 = dmod.func("det_v"); f4 = dmod.func("detector_to_lab")
     for f in (f1, f2, f3, f4):
         ctx.saw(dmod, f)
-    p1 = vec(Evaluator(dmod, inline=True).call_function("det_coor", [Gt, A["costth"], A["wavelength"]] + common), 2)
-    p2 = vec(Evaluator(dmod, inline=True).call_function("det_coor2", [A["tth"], A["eta"]] + common), 2)
-    c2, s2 = RR.cs(A["tth"])
-    ce, se = RR.cs(A["eta"])
     tau = 2 * N.PI      # detector.py works in the 2*pi convention of xfab.tools
-    sub = {"costth": c2, "Gt[1]": -s2 * se * tau / A["wavelength"], "Gt[2]": s2 * ce * tau / A["wavelength"]}
-    same = all(deep_subs(a, sub).equals(b) for a, b in zip(p1, p2))
-    ctx.check(same, "C10:same-ray:det_coor-vs-det_coor2",
-              "det_coor and det_coor2 give different pixels for the same scattered ray", core.loc(dmod, f1),
-              sample={"dety(det_coor2) numerator terms": len(p2[0].num), "denominator terms": len(p2[0].den)})
-    # on-ray / in-plane for det_coor2's pixel
-    v = [c2, -s2 * se, s2 * ce]
-    for name, pix, vdir in (("det_coor2", p2, v),
-                            ("det_coor", p1, [A["costth"], A["wavelength"] / tau * Rat.atom("Gt[1]"), A["wavelength"] / tau * Rat.atom("Gt[2]")])):
-        lab = vec(Evaluator(dmod, inline=True).call_function(
-            "detector_to_lab", [pix[0], pix[1], A["distance"], A["y_size"], A["z_size"], A["dety_center"], A["detz_center"], R]), 3)
-        d = [lab[0] - A["tx"], lab[1] - A["ty"], lab[2] - A["tz"]]
-        cr = cross(d, vdir)
-        ok = all(x.is_zero() for x in cr)
-        ctx.check(ok, "C10:on-ray:%s" % name,
-                  "detector_to_lab(%s pixel) - grain position is not parallel to the scattered direction" % name,
-                  core.loc(dmod, f4), sample={"function": name, "cross_product": [N.short(x, 60) for x in cr]})
-        n = [Rm[0][0], Rm[1][0], Rm[2][0]]
-        dp = n[0] * (lab[0] - A["distance"]) + n[1] * lab[1] + n[2] * lab[2]
-        ctx.check(dp.is_zero(), "C10:in-plane:%s" % name,
-                  "detector_to_lab(%s pixel) is not in the detector plane" % name, core.loc(dmod, f4))
+
+    def generic_eq_policy(test, ev, env):
+        """generic configuration: an equality test between a non-constant normal form and anything else is false
+        (it holds on a set of measure zero; those special configurations are analysed as scenarios of their own)"""
+        if isinstance(test, ast.Compare) and len(test.ops) == 1 and isinstance(test.ops[0], (ast.Eq, ast.NotEq)):
+            try:
+                a_ = scalar(ev.eval(test.left, env)); b_ = scalar(ev.eval(test.comparators[0], env))
+            except AnalysisError:
+                return None
+            if a_.is_const() and b_.is_const():
+                return None
+            return isinstance(test.ops[0], ast.NotEq)
+        return None
+    import itertools
+    for zeros in itertools.product((False, True), repeat=3):
+        tag = "generic" if not any(zeros) else "zero-tilt-" + "".join(ax for ax, z in zip("xyz", zeros) if z)
+        A = {k: Rat.atom(k) for k in ("costth", "wavelength", "distance", "y_size", "z_size", "dety_center", "detz_center",
+                                      "tx", "ty", "tz", "tth", "eta", "tilt_x", "tilt_y", "tilt_z")}
+        for ax, z in zip("xyz", zeros):
+            if z:
+                A["tilt_" + ax] = Rat.const(0)
+        Gt = sym_array("Gt", (3,))
+        R = Evaluator(tmod, inline=True).call_function("detect_tilt", [A["tilt_x"], A["tilt_y"], A["tilt_z"]])
+        Rm = [[scalar(x) for x in row] for row in (R if isinstance(R, Arr) else materialise(R)).data]
+        if not RR.is_proper_rotation(Rm):
+            raise AnalysisError("tools.detect_tilt does not evaluate to a proper rotation (see C03)")
+        common = [A["distance"], A["y_size"], A["z_size"], A["dety_center"], A["detz_center"], R, A["tx"], A["ty"], A["tz"]]
+
+        def EV():
+            return Evaluator(dmod, inline=True, branch_policy=generic_eq_policy)
+        p1 = vec(EV().call_function("det_coor", [Gt, A["costth"], A["wavelength"]] + common), 2)
+        p2 = vec(EV().call_function("det_coor2", [A["tth"], A["eta"]] + common), 2)
+        c2, s2 = RR.cs(A["tth"])
+        ce, se = RR.cs(A["eta"])
+        sub = {"costth": c2, "Gt[1]": -s2 * se * tau / A["wavelength"], "Gt[2]": s2 * ce * tau / A["wavelength"]}
+        same = all(deep_subs(a, sub).equals(b) for a, b in zip(p1, p2))
+        ctx.check(same, "C10:same-ray:det_coor-vs-det_coor2:%s" % tag,
+                  "det_coor and det_coor2 give different pixels for the same scattered ray (%s tilt configuration)" % tag, core.loc(dmod, f1),
+                  sample={"configuration": tag, "dety(det_coor2) numerator terms": len(p2[0].num)} if tag == "generic" else None)
+        v = [c2, -s2 * se, s2 * ce]
+        for name, pix, vdir in (("det_coor2", p2, v),
+                                ("det_coor", p1, [A["costth"], A["wavelength"] / tau * Rat.atom("Gt[1]"), A["wavelength"] / tau * Rat.atom("Gt[2]")])):
+            lab = vec(EV().call_function(
+                "detector_to_lab", [pix[0], pix[1], A["distance"], A["y_size"], A["z_size"], A["dety_center"], A["detz_center"], R]), 3)
+            d = [lab[0] - A["tx"], lab[1] - A["ty"], lab[2] - A["tz"]]
+            cr = cross(d, vdir)
+            ok = all(x.is_zero() for x in cr)
+            ctx.check(ok, "C10:on-ray:%s:%s" % (name, tag),
+                      "detector_to_lab(%s pixel) - grain position is not parallel to the scattered direction (%s tilt configuration)" % (name, tag),
+                      core.loc(dmod, f4), sample={"function": name, "configuration": tag} if tag == "generic" else None)
+            n = [Rm[0][0], Rm[1][0], Rm[2][0]]
+            dp = n[0] * (lab[0] - A["distance"]) + n[1] * lab[1] + n[2] * lab[2]
+            ctx.check(dp.is_zero(), "C10:in-plane:%s:%s" % (name, tag),
+                      "detector_to_lab(%s pixel) is not in the detector plane (%s tilt configuration)" % (name, tag), core.loc(dmod, f4))
+    A = {k: Rat.atom(k) for k in ("costth", "wavelength", "distance", "y_size", "z_size", "dety_center", "detz_center", "tx", "ty", "tz")}
+    Gt = sym_array("Gt", (3,))
+    common = [A["distance"], A["y_size"], A["z_size"], A["dety_center"], A["detz_center"], sym_array("R_tilt", (3, 3)), A["tx"], A["ty"], A["tz"]]
     # det_v
     dv = vec(Evaluator(dmod, inline=True).call_function("det_v", [Gt, A["costth"], A["wavelength"]] + common), 3)
     want = [A["costth"], A["wavelength"] / tau * Rat.atom("Gt[1]"), A["wavelength"] / tau * Rat.atom("Gt[2]")]
@@ -90,6 +116,8 @@ def run(ctx):
                         "depends on the real geometry"]
     ctx.assumptions += ["C03: tools.detect_tilt = Rx Ry Rz", "g-vectors in the 2*pi convention of xfab.tools (detector.py divides by 2*pi)",
                         "numpy sum, dot, array"]
+    from xfabsa import numeric as _N2
+    _N2.hazard_rule(ctx, 'C10')
     return ("det_coor, det_coor2, det_v and detector_to_lab evaluated by E3 with the tilt matrix of tools.detect_tilt: the two "
             "pixel formulas agree for the same ray, and the pixel mapped back to the laboratory lies on the ray from the "
             "grain position along (cos 2t, -sin 2t sin eta, sin 2t cos eta) and in the detector plane - identities of normal "
